@@ -118,6 +118,7 @@ package kvql
 //@     atend assert[C15] strength: opPrec(as(x, *BinaryOpExpr).Op) >= prec1
 //@     atend assert[C15] left: lvl(as(x, *BinaryOpExpr).Left) >= opPrec(as(x, *BinaryOpExpr).Op)
 //@     atend assert[C15] right: lvl(as(x, *BinaryOpExpr).Right) >= opPrec(as(x, *BinaryOpExpr).Op) + 1
+//@     atend assert[C15] between: as(x, *BinaryOpExpr).Op == Between ==> is(as(x, *BinaryOpExpr).Right, *ListExpr) && len(as(as(x, *BinaryOpExpr).Right, *ListExpr).List) == 2 && lvl(as(as(x, *BinaryOpExpr).Right, *ListExpr).List[0]) >= opPrec(Between) + 1 && lvl(as(as(x, *BinaryOpExpr).Right, *ListExpr).List[1]) >= opPrec(Between) + 1
 //@     atend set lvl(x) := ite(as(x, *BinaryOpExpr).Op == In && is(as(x, *BinaryOpExpr).Right, *ListExpr), 6, opPrec(as(x, *BinaryOpExpr).Op))
 //
 //@ func (p *Parser) parseUnaryExpr() (ret Expression, err error)
